@@ -285,6 +285,8 @@ def c04_safe_ops(ctx, seqrun, stats, divs):
     ctx.notes['safe_ops_off_contract'] = {k: len(v) for k, v in stats.safe_breaks.items()}
 CHECKS['C04'].extra = c04_safe_ops
 CHECKS['C18'].extra = c18_extra
+# C05 ("neither over- nor under-reports under concurrency"): a thread that only WAITS must not change what the other stages are offered
+CHECKS['C05'].extra = lambda ctx, seqrun, stats, divs: run_waitprobe(ctx, stats)
 for pid in ('C01', 'C04', 'C05', 'C06', 'C11', 'C12'):
     CHECKS[pid].propfiles = [f'Props/{pid}.v', 'Props/KTie.v']    # K-tie: kernels translated from the source on every run
 for pid in ('C01', 'C05', 'C06'):
